@@ -68,6 +68,7 @@ def gen_op(rng, tier, elems=("pod", "log", "log", "own", "own")):
 
 class C06(flow.Spec):
     pid = "C06"
+    source_files = ('tlx/sort/parallel_mergesort.hpp', 'tlx/algorithm/multiway_merge_splitting.hpp', 'tlx/algorithm/multisequence_partition.hpp')
     harness = dict(name="c06", sources=["c06.cpp"], repo_sources=["tlx/algorithm/parallel_multiway_merge.cpp"])
     nontrivial_rule = ("an `ms` operation is non-trivial when >= 2 threads merged a non-empty window and the sorted "
                        "result has equivalent keys that came from different thread slices on both sides of a merge "
@@ -100,13 +101,15 @@ class C06(flow.Spec):
     def cases(self, ctx, seed, tier, round_no=0):
         rng = random.Random(seed * 1000003 + round_no * 7919 + 6)
         n = 1500 if tier == "quick" else 10000
+        if tier != "quick" and ctx.tier == "quick":
+            n = 4000          # deeper validation requested by the flow (modelled sources changed) inside the quick tier
         cs = []
         for i in range(n):
             lines = [f"case c{round_no}_{i}"]
             for _ in range(rng.choice([1, 2, 3])):
                 lines.append(gen_op(rng, tier))
             cs.append(lines)
-        if tier != "quick" and round_no == 0:
+        if tier != "quick" and ctx.tier != "quick" and round_no == 0:
             self._tsan(ctx, seed)
         return cs
 
